@@ -30,6 +30,7 @@ type nativeResult struct {
 	Panic        string            `json:"panic"`
 	Observes     map[string]string `json:"observes"`
 	Asserts      int               `json:"asserts"`
+	AssumeSite   string            `json:"assume_site"`
 }
 
 var subDir = map[string]string{"otp": "", "api": "internal/app/api", "wasm": "wasm"}
@@ -97,6 +98,25 @@ func runNative(sub string, jobs []nativeJob, harnessFns []string, dir string) ([
 	cmd := exec.Command("go", "test", "-vet=off", "-count=1", "-timeout", "20m", "-run", "^TestVerifReplay$", "-overlay", ovFile, ".")
 	cmd.Dir = pkgDir
 	cmd.Env = append(os.Environ(), "GOFLAGS=", "GOPROXY=off", "VERIF_REPLAY_IN="+inFile, "VERIF_REPLAY_OUT="+outFile)
+	if sub == "wasm" {
+		// the binding only builds for js/wasm: run the test binary under Node with Go's own wrapper;
+		// the library package gets its harness overlay too (contract stubs live there)
+		_, realOtp, _ := overlayFor("otp", true)
+		for virt, r := range realOtp {
+			repl[virt] = r
+		}
+		ovb, _ := json.MarshalIndent(map[string]any{"Replace": repl}, "", " ")
+		os.WriteFile(ovFile, ovb, 0o644)
+		gr := exec.Command("go", "env", "GOROOT")
+		gr.Dir = pkgDir
+		gr.Env = append(os.Environ(), "GOFLAGS=", "GOPROXY=off")
+		grb, _ := gr.Output()
+		wrapper := "/verif/tools/go_js_wasm_exec"
+		cmd = exec.Command("go", "test", "-vet=off", "-count=1", "-timeout", "20m", "-exec", wrapper, "-run", "^TestVerifReplay$", "-overlay", ovFile, ".")
+		cmd.Dir = pkgDir
+		cmd.Env = append(os.Environ(), "GOFLAGS=", "GOPROXY=off", "GOOS=js", "GOARCH=wasm", "VERIF_REPLAY_IN="+inFile, "VERIF_REPLAY_OUT="+outFile,
+			"VERIF_WASM_GOROOT="+strings.TrimSpace(string(grb)))
+	}
 	outb, err := cmd.CombinedOutput()
 	log := string(outb)
 	rb, rerr := os.ReadFile(outFile)
@@ -155,16 +175,24 @@ func replayAll(prop string, results []jobResult, viols []*Violation, loaded []*L
 	bySub := map[string][]nativeJob{}
 	fnsBySub := map[string]map[string]bool{}
 	specOf := map[string]*HarnessSpec{}
-	loadedOf := map[string]*Loaded{}
+	loadedOf := map[*HarnessSpec]*Loaded{}
 	wits := map[string]wit{}
 	for _, l := range loaded {
 		for _, s := range l.specs {
+			if s.Prop != prop {
+				// harness names are only unique within a property
+				if fnsBySub[s.Pkg] == nil {
+					fnsBySub[s.Pkg] = map[string]bool{}
+				}
+				fnsBySub[s.Pkg][s.Fn.Name()] = true
+				continue
+			}
 			if fnsBySub[s.Pkg] == nil {
 				fnsBySub[s.Pkg] = map[string]bool{}
 			}
 			fnsBySub[s.Pkg][s.Fn.Name()] = true
 			specOf[s.Name] = s
-			loadedOf[s.Name] = l
+			loadedOf[s] = l
 		}
 	}
 	for i, jr := range results {
@@ -201,15 +229,7 @@ func replayAll(prop string, results []jobResult, viols []*Violation, loaded []*L
 	}
 	defer os.RemoveAll(tmp)
 	for sub, jobs := range bySub {
-		if sub == "wasm" {
-			notes = append(notes, fmt.Sprintf("%d js/wasm models not replayed natively (js/wasm package)", len(jobs)))
-			for _, j := range jobs {
-				if v := violOf[j.ID]; v != nil {
-					v.Replayed = "skipped"
-				}
-			}
-			continue
-		}
+
 		var fns []string
 		for f := range fnsBySub[sub] {
 			fns = append(fns, f)
@@ -259,7 +279,7 @@ func replayAll(prop string, results []jobResult, viols []*Violation, loaded []*L
 					}
 				} else {
 					v.Replayed = "not-reproduced"
-					notes = append(notes, fmt.Sprintf("model for %s did not reproduce natively (failed=%v panic=%q assume_failed=%v)", j.ID, r.Failed, r.Panic, r.AssumeFailed))
+					notes = append(notes, fmt.Sprintf("model for %s did not reproduce natively (failed=%v panic=%q assume_failed=%v %s)", j.ID, r.Failed, r.Panic, r.AssumeFailed, r.AssumeSite))
 				}
 				continue
 			}
@@ -269,7 +289,7 @@ func replayAll(prop string, results []jobResult, viols []*Violation, loaded []*L
 				notes = append(notes, "no native result for witness "+j.ID)
 				continue
 			}
-			obs, failed, outcome := concreteRun(loadedOf[w.jr.spec.Name], w.jr.spec, j.Cases, j.Vars, j.Digests)
+			obs, failed, outcome := concreteRun(loadedOf[w.jr.spec], w.jr.spec, j.Cases, j.Vars, j.Digests)
 			if strings.HasPrefix(outcome, "concrete-symbolic") || strings.HasPrefix(outcome, "unsupported") {
 				notes = append(notes, fmt.Sprintf("witness %s not comparable in concrete mode (%s)", j.ID, firstN(outcome, 120)))
 				continue
